@@ -172,6 +172,20 @@ def handle (d : DState) (line : String) : Except String (DState × String) := do
         let vw := (vsub V W).map rabs
         let vu := (vsub V U).map rabs
         pure (d, s!"wfix={wfix} ufix={ufix} gapmin={fRat (minList gaps)} gapmax={fRat (maxList gaps)} vwmax={fRat (maxList vw)} vumax={fRat (maxList vu)}")
+    | "certavg" => do
+        -- average-reward certificates: g + h = T h (optimality), gd + hd = T_d hd (returned policy), gamma = 1
+        let p ← getP d (← arg a "id")
+        let g ← pRat (← arg a "g"); let h ← pList pRat (← arg a "h")
+        let gd ← pRat (← arg a "gd"); let hd ← pList pRat (← arg a "hd")
+        let pol ← pList pNat (← arg a "pol"); let V ← pList pRat (← arg a "V"); let gain ← pRat (← arg a "gain")
+        let n := p.P.nS
+        let Th := (List.range n).map (backup p.P 1 (look h))
+        let Thd := (List.range n).map fun s => qval p.P 1 (look hd) s (pol.getD s 0)
+        let optOk := decide (Th = h.map (· + g)) && h.length == n
+        let polOk := decide (Thd = hd.map (· + gd)) && hd.length == n && pol.length == n && pol.all (· < p.P.nA)
+        let TV := (List.range n).map (backup p.P 1 (look V))
+        let resid := (vsub TV V).map fun x => rabs (x - gain)
+        pure (d, s!"optok={optOk} polok={polOk} gainerr={fRat (rabs (gain - g))} polgap={fRat (g - gd)} resid={fRat (maxList resid)}")
     | "qrow" => do
         let p ← getP d (← arg a "id")
         let γ ← pRat (← arg a "gamma"); let V ← pList pRat (← arg a "V"); let s ← pNat (← arg a "s")
@@ -213,6 +227,7 @@ def handle (d : DState) (line : String) : Except String (DState × String) := do
           let st := match kind with
             | Kind.periodic => periodicInit p.P c period
             | Kind.pi => piInit p.P c γ p.initPol
+            | Kind.rvi => rviInit p.P c
             | _ => initState p.P c
           let reset := if argD a "reset" "0" = "1" then some st.values else none
           let sv : Solver := { kind, pid, c, γ, ε, thr, test, period, clear, budget, reset, f, st }
